@@ -24,9 +24,9 @@ import (
 )
 
 const (
-	c12Quick    = 540   // 300 schedule configs + 60 ctx give-up + 60 MaxElapsedTime give-up + 60 concurrent + 60 elapsed-inside-wait
-	c12Thorough = 54000 // 5000 + 1000 + 1000 + 1000 + 1000
-	c12Stride   = 9     // idx%9: 0..4 schedule, 5 ctx, 6 elapsed, 7 concurrent, 8 elapsed inside a wait
+	c12Quick    = 600   // 300 schedule configs + 60 each: ctx give-up, MaxElapsedTime give-up, concurrent, elapsed-inside-wait, ctx with zero waits
+	c12Thorough = 60000 // the same mix, x100
+	c12Stride   = 10    // idx%10: 0..4 schedule, 5 ctx, 6 elapsed, 7 concurrent, 8 elapsed inside a wait, 9 ctx with zero waits
 	c12BigMR    = 2000  // MaxRetries of the MaxElapsedTime class
 	retryFrame  = "Retry.Middleware"
 	hour        = time.Hour
@@ -37,13 +37,14 @@ func init() {
 		ID:    "C12",
 		Level: "exploration",
 		Cases: func(tier string) int { return vlib.TierN(tier, c12Quick, c12Thorough) },
-		Rule: "case idx%9 in 0..4 = class schedule: one random Retry config (MaxRetries 1..8, InitialInterval 0 / ns / us / up to 3 ms, Multiplier in {1,1.5,2,3,random 1..3}, " +
+		Rule: "case idx%10 in 0..4 = class schedule: one random Retry config (MaxRetries 1..8, InitialInterval 0 / ns / us / up to 3 ms, Multiplier in {1,1.5,2,3,random 1..3}, " +
 			"MaxInterval = Initial .. Initial+6 ms, RandomizationFactor in {0,0.5,1,random}, MaxElapsedTime 0 or 1 h, Logger nil or Nop) wrapped ONCE and invoked with 3-4 handler scripts " +
 			"(fail forever; fail^MaxRetries then succeed; fail^i then succeed for a random i < MaxRetries; sometimes i=0), every attempt returning its own output slice and its own error value. " +
-			"idx%9==5 = class ctx/*: the message context ends (handler cancels it in attempt k=1 with 1 h intervals; in attempt k=2,3 with a tiny InitialInterval and a huge Multiplier so that only the wait after attempt k is >= 40 s; " +
-			"the harness cancels it from outside during the 1 h wait; it is cancelled before the call; it carries a 1-5 ms deadline). idx%9==6 = class elapsed: MaxElapsedTime 5..20 ms, MaxRetries 2000, interval 1..2 ms, handler taking >=100 us and failing forever. " +
-			"idx%9==7 = class concurrent: ONE wrapped handler retries a permanently failing message (MaxRetries 3..4, Initial 8..12 ms, Multiplier 2, RF 0) while another goroutine keeps passing fresh, immediately succeeding messages through the same wrapped handler every few ms: the failing message's hook delays and back-off gaps must still follow its own progression. " +
-			"idx%9==8 = class elapsed-inside-wait: Initial 40..80 ms, Multiplier 6, RF 0, MaxElapsedTime = 1.5 x Initial, so the budget ends inside the second wait with a margin of 5.5 x Initial (>= 220 ms): a third attempt must not happen (reported only if it happens in 4 of 4 consecutive runs, so that a stalled process cannot fake it). " +
+			"idx%10==5 = class ctx/*: the message context ends (handler cancels it in attempt k=1 with 1 h intervals; in attempt k=2,3 with a tiny InitialInterval and a huge Multiplier so that only the wait after attempt k is >= 40 s; " +
+			"the harness cancels it from outside during the 1 h wait; it is cancelled before the call; it carries a 1-5 ms deadline). idx%10==6 = class elapsed: MaxElapsedTime 5..20 ms, MaxRetries 2000, interval 1..2 ms, handler taking >=100 us and failing forever. " +
+			"idx%10==7 = class concurrent: ONE wrapped handler retries a permanently failing message (MaxRetries 3..4, Initial 8..12 ms, Multiplier 2, RF 0) while another goroutine keeps passing fresh, immediately succeeding messages through the same wrapped handler every few ms: the failing message's hook delays and back-off gaps must still follow its own progression. " +
+			"idx%10==8 = class elapsed-inside-wait: Initial 40..80 ms, Multiplier 6, RF 0, MaxElapsedTime = 1.5 x Initial, so the budget ends inside the second wait with a margin of 5.5 x Initial (>= 220 ms): a third attempt must not happen (reported only if it happens in 4 of 4 consecutive runs, so that a stalled process cannot fake it). " +
+			"idx%10==9 = class ctx-zero-wait: InitialInterval 0 (every wait is zero), MaxRetries 8, the handler cancels the message context in its first attempt; 40 such messages per case: with a zero wait both select branches may be ready, so single outcomes are not judged, but a Retry that honours the context gives up in most of them - reported when >= 30 of 40 messages used all 9 calls. " +
 			"Non-trivial: schedule = at least one retry was made and at least one hook delay and one back-off gap were judged; ctx/elapsed = Retry gave up with fewer than MaxRetries+1 calls. " +
 			"Distinct = distinct (class, config, scripts, observed call counts).",
 		Assumptions: []string{
@@ -547,6 +548,8 @@ func run(e *vlib.Env) vlib.Result {
 		return runConcurrent(e)
 	case 8:
 		return runElapsedInsideWait(e)
+	case 9:
+		return runCtxZeroWait(e)
 	}
 	return runSchedule(e)
 }
@@ -855,5 +858,57 @@ func runElapsedInsideWait(e *vlib.Env) vlib.Result {
 	}
 	res.Fail("elapsed-giveup", "[elapsed-inside-wait Initial=%v Mult=6 MaxElapsedTime=%v] in 4 of 4 runs Retry made %d handler calls: attempt 3 cannot start before 7 x Initial = %v, long after MaxElapsedTime passed, so Retry did not give up when the budget ended inside the wait", c.Initial, c.MaxElapsed, tr.Calls, 7*c.Initial)
 	res.Witness = tr
+	return res
+}
+
+// runCtxZeroWait: zero back-off waits and a context that ends in the first attempt (statistical: see the Rule).
+func runCtxZeroWait(e *vlib.Env) vlib.Result {
+	res := vlib.Result{Class: "ctx-zero-wait"}
+	c := cfg{MaxRetries: 8, Initial: 0, Max: 0, Mult: 1, RF: 0, Logger: e.R.Bool()}
+	const n = 40
+	all, dist := 0, map[int]int{}
+	for i := 0; i < n; i++ {
+		iv := &invocation{name: fmt.Sprintf("%s-z%d", e.ID(), i), forever: true}
+		msg := message.NewMessage(iv.name, nil)
+		ctx, cancel := context.WithCancel(context.Background())
+		msg.SetContext(ctx)
+		iv.onAttemt = func(k int) {
+			if k == 1 {
+				cancel()
+			}
+		}
+		h := c.retry(iv.hook).Middleware(iv.handler)
+		oc, dump := iv.exec(h, msg, nil)
+		cancel()
+		if !finish(&res, oc, dump, iv, "ctx-zero-wait") {
+			return res
+		}
+		iv.mu.Lock()
+		retErr := iv.retErr
+		iv.mu.Unlock()
+		calls := iv.calls()
+		res.Events += calls + 1
+		dist[calls]++
+		if retErr == nil {
+			res.Fail("failure-to-success", "[ctx-zero-wait] every attempt failed but Retry returned a nil error")
+			return res
+		}
+		if calls > c.MaxRetries+1 {
+			res.Fail("calls", "[ctx-zero-wait] %d handler calls with MaxRetries %d", calls, c.MaxRetries)
+			return res
+		}
+		if calls == c.MaxRetries+1 {
+			all++
+		}
+	}
+	res.Sample = map[string]any{"cfg": c, "messages": n, "handler_calls_distribution": fmt.Sprint(dist)}
+	res.Sig = vlib.Sig("ctx-zero-wait", e.Idx, all)
+	res.Count("invocations", n)
+	res.Count("ctx_zero_wait_messages_using_all_calls", all)
+	if all >= 30 {
+		res.Fail("ctx-giveup", "[ctx-zero-wait InitialInterval=0 MaxRetries=8] the message context ended in attempt 1 but %d of %d messages were retried all 8 times (calls distribution %v): the context is not consulted when the wait is zero", all, n, dist)
+		return res
+	}
+	res.NonTrivial = true
 	return res
 }
